@@ -11,6 +11,7 @@ import tempfile
 import xml.etree.ElementTree as ET
 
 PYV = "/venv/bin/python"
+DEMO_PY = os.environ.get("SEED_DEMO_PY", PYV)     # demos that execute generated Python need numpy: SEED_DEMO_PY=/verif/.venv/bin/python
 
 
 def sh(cmd, **kw):
@@ -45,13 +46,13 @@ def main():
     ok = True
     try:
         env = dict(os.environ, PYTHONPATH=f"{wt}/src")
-        d0 = sh([PYV, demo], env=env, cwd=wt)
+        d0 = sh([DEMO_PY, demo], env=env, cwd=wt)
         print(f"[seed] demo on unchanged tree: rc={d0.returncode} {d0.stdout.strip()[-120:]!r}")
         a = sh(f"git -C {wt} apply {patch}")
         if a.returncode != 0:
             print("[seed] PATCH DOES NOT APPLY:", a.stdout[-300:])
             return 2
-        d1 = sh([PYV, demo], env=env, cwd=wt)
+        d1 = sh([DEMO_PY, demo], env=env, cwd=wt)
         print(f"[seed] demo with patch:        rc={d1.returncode} {d1.stdout.strip()[-200:]!r}")
         missing = suite(wt)
         print(f"[seed] test suite with patch: baseline tests no longer passing = {len(missing)} {missing[:3]}")
